@@ -476,3 +476,175 @@ def reopened_after_close(ck, S, rid, consequence):
     for c in closes:
         ok = g.postdominated(g.site_of(c), osites)
         ck.ob(rid, sitestr(fn, c), ok, "after close() every path reopens the active file" if ok else "a path leaves rotate() with the active file closed: %s" % consequence, key="rotate|no-reopen")
+
+
+def day_readback(ck, S, rid):
+    """init() reads the day of the active file's content back from persistent state.  When that state is the file's modification time, the
+    kernel sets it whenever buffered records are written out - possibly a day after they were logged.  The sink must then be the writer of
+    that state as well: on destruction and on flush() (the two places where it writes the buffer out without a rotation) the modification
+    time is set from the day of the content (m_currentLogDate / the message's time) whenever that day is not today."""
+    from engine.inline import flatten
+    from engine.cfg import eval_cond
+    F = S.F
+    fld = RP + "::m_currentLogDate"
+    init = S.m["init"]
+    readers = []
+    for n in init.all_nodes():
+        rhs = None
+        if n.get("k") == "binop" and n.get("op") == "=" and is_this_field(n.get("lhs"), fld):
+            rhs = n.get("rhs")
+        elif n.get("k") == "call" and n.get("ck") == "operator" and n.get("op") == "=" and n.get("args") and is_this_field(n["args"][0], fld):
+            rhs = n["args"][1]
+        if rhs is None:
+            continue
+        src = [x for x in walk(deref_local(init, rhs)) if x.get("k") == "call" and strip_tmpl(x.get("callee") or "").split("::")[-1] in ("lastModified", "fileTime")]
+        if src:
+            readers.append((n, src[0]))
+    if not readers:
+        ck.ob(rid, sitestr(init), None if any(strip_tmpl(x.get("callee") or "").split("::")[-1] in ("lastModified", "fileTime") for x in init.calls()) else True,
+              "init() does not date the active file by its modification time", key="day-state|readback")
+        return
+    MOD = 3  # QFileDevice::FileModificationTime
+
+    def stamps(fn):
+        out = []
+        for c in fn.calls():
+            if strip_tmpl(c.get("callee") or "").split("::")[-1] != "setFileTime" or len(c.get("args", [])) < 2:
+                continue
+            if not S.is_active_file(c.get("obj"), fn):
+                continue
+            kind = const_int(c["args"][1])
+            if kind is None:
+                kind = const_int(deref_local(fn, c["args"][1]))
+            out.append((c, kind))
+        return out
+
+    def value_kind(fn, c):
+        a = deref_local(fn, c["args"][0])
+        nodes = list(walk(a))
+        for x in list(nodes):
+            if x.get("k") == "ref" and x.get("dk") == "local":
+                nodes += list(walk(deref_local(fn, x)))
+        if any(is_this_field(x, fld) or is_call(x, LM + "::time") for x in nodes):
+            return "content"
+        if any(x.get("k") == "call" and strip_tmpl(x.get("callee") or "") in ("QDate::currentDate", "QDateTime::currentDateTime", "QDateTime::currentDateTimeUtc") for x in nodes):
+            return "clock"
+        return None
+
+    daily = S.option_pred("RotationDaily")
+    INIT = RP + "::m_initialized"
+
+    def scenario(fn):
+        """the sink has logged on day D (daily rotation, initialised, non-empty file) and today is D+1"""
+        def is_today(x):
+            return is_call(skip_copies(deref_local(fn, x)), "QDate::currentDate")
+
+        def is_day(x):
+            return is_this_field(skip_copies(deref_local(fn, x)), fld)
+
+        def atom(n):
+            n = skip_copies(n)
+            if not isinstance(n, dict):
+                return None
+            if daily(n) or is_this_field(n, INIT):
+                return True
+            if is_call(n, "QDate::isValid") and is_day(n.get("obj")):
+                return True
+            if n.get("k") == "call" and n.get("ck") == "member" and strip_tmpl(n.get("callee") or "").split("::")[-1] == "flush" and S.is_active_file(n.get("obj"), fn):
+                return True
+            op, a, b = None, None, None
+            if n.get("k") == "call" and n.get("ck") == "operator" and len(n.get("args", [])) == 2:
+                op, a, b = n.get("op"), n["args"][0], n["args"][1]
+            elif n.get("k") == "binop":
+                op, a, b = n.get("op"), n.get("lhs"), n.get("rhs")
+            if op in ("==", "!=", "<", ">", "<=", ">="):
+                if is_day(a) and is_today(b):
+                    return {"==": False, "!=": True, "<": True, "<=": True, ">": False, ">=": False}[op]
+                if is_today(a) and is_day(b):
+                    return {"==": False, "!=": True, "<": False, "<=": False, ">": True, ">=": True}[op]
+                sz = lambda x: isinstance(skip_copies(deref_local(fn, x)), dict) and skip_copies(deref_local(fn, x)).get("k") == "call" and \
+                    strip_tmpl(skip_copies(deref_local(fn, x)).get("callee") or "").split("::")[-1] in ("size", "pos") and S.is_active_file(skip_copies(deref_local(fn, x)).get("obj"), fn)
+                if sz(a) and const_int(b) == 0:
+                    return {"==": False, "!=": True, "<": False, "<=": False, ">": True, ">=": True}[op]
+                if sz(a) and const_int(b) == 1:
+                    return {"<": False, ">=": True}.get(op)
+            return None
+        return atom
+
+    exits = []
+    dt = [f for f in F.fn_all(RS + "::~RotatingFileSink") if f.body is not None]
+    fl = [f for f in F.fn_all(RS + "::flush") if f.body is not None]
+    exits.append(("destruction", "~RotatingFileSink()", dt[0] if dt else None,
+                  "a service that logged its last record before midnight and is stopped after it leaves the file dated one day late: the next run appends the new day's records to it"))
+    exits.append(("flush", "flush()", fl[0] if fl else None,
+                  "records logged before midnight and flushed after it (SimplePipeline::flush(), the qFatal path) leave the file dated one day late; a process that ends without destroying the sink "
+                  "is restarted into a file that mixes two days"))
+    anywhere = [(f, c, k) for f in F.fns.values() if f.cls in (RS, RP) and f.body is not None for c, k in stamps(f)]
+    # per-record stamping in send() after the write is the other sound arrangement
+    snd = S.send
+    per_record = [c for c, k in stamps(snd) if k == MOD]
+    for tag, name, raw, consequence in exits:
+        if raw is None:
+            if per_record:
+                ck.ob(rid, sitestr(snd, per_record[0]), None, "the modification time is set per record in send(); %s not checked" % name, key="day-state|" + tag)
+                continue
+            ck.ob(rid, sitestr(init, readers[0][1]), False if not anywhere else None,
+                  "init() reads the day of the active file's content from its modification time, but on %s the sink does not set it: the kernel stamps the file when the buffered records are written out. %s" % (tag, consequence),
+                  key="day-state|" + tag)
+            continue
+        fn = flatten(F, raw, stop=S.units)
+        ck.touch(fn)
+        st = [(c, k) for c, k in stamps(fn)]
+        if not st:
+            # the work is done by a member of the private object (d->flush()): that member is the unit, provided the public function
+            # calls it on every path and does not write the buffer out afterwards
+            for c_ in fn.calls():
+                h = F.fns.get(c_.get("fn"))
+                if h is None or h.cls != RP or h.body is None:
+                    continue
+                hf = flatten(F, h, stop=S.units)
+                if not stamps(hf):
+                    continue
+                go = S.g(fn)
+                after = [n for n in fn.calls() if n is not c_ and strip_tmpl(n.get("callee") or "").split("::")[-1] in ("flush", "close", "write", "send") and go.can_reach(go.site_of(c_), go.site_of(n))]
+                if go.must_pass({go.site_of(c_)}) and not after:
+                    fn = hf
+                    ck.touch(fn)
+                    st = [(c, k) for c, k in stamps(fn)]
+                break
+        good = [c for c, k in st if k == MOD]
+        if not good:
+            ck.ob(rid, sitestr(fn), False if all(k is not None for _, k in st) and not per_record else None,
+                  "init() reads the day of the active file's content from its modification time, but %s does not set it: the kernel stamps the file when the buffered records are written out. %s" % (name, consequence),
+                  key="day-state|" + tag)
+            continue
+        g = S.g(fn)
+        vk = {value_kind(fn, c) for c in good}
+        if vk == {"clock"}:
+            ck.ob(rid, sitestr(fn, good[0]), False, "%s sets the modification time from the clock, not from the day of the content. %s" % (name, consequence), key="day-state|" + tag)
+            continue
+        if vk != {"content"}:
+            ck.ob(rid, sitestr(fn, good[0]), None, "%s: the value the modification time is set to could not be traced to the day of the content" % name, key="day-state|" + tag)
+            continue
+        at = scenario(fn)
+        keep = g.projector(at)
+        sites = set(g.sites_of_nodes(good))
+        must = g.must_pass(sites, keep=keep)
+        # the stamp must come after the write-out it corrects: no flush / close of the active file after it on the same path
+        late = [n for n in fn.calls() if strip_tmpl(n.get("callee") or "").split("::")[-1] in ("flush", "close", "write") and S.is_active_file(n.get("obj"), fn)
+                and any(g.can_reach(s, g.site_of(n)) for s in sites)]
+        pre = [n for n in fn.calls() if strip_tmpl(n.get("callee") or "").split("::")[-1] == "flush" and S.is_active_file(n.get("obj"), fn)]
+        flushed = bool(pre) and all(g.must_pass(set(g.sites_of_nodes(pre)), keep=keep, to=s_) for s_ in sites)
+        if must and not late and not flushed:
+            ck.ob(rid, sitestr(fn, good[0]), False, "%s sets the modification time while records are still buffered: they are written out afterwards (close()) and the kernel stamps the file again. %s" % (name, consequence), key="day-state|" + tag)
+            continue
+        if must and not late:
+            ck.ob(rid, sitestr(fn, good[0]), True, "%s: with content of an earlier day the modification time is set back to that day on every path, after the buffer was written out" % name, key="day-state|" + tag)
+            continue
+        if late:
+            ck.ob(rid, sitestr(fn, late[0]), False, "%s writes the buffer out (%s) after it has set the modification time: the kernel stamps the file again. %s" % (name, describe(late[0])[:40], consequence), key="day-state|" + tag)
+            continue
+        decided = all(eval_cond(n_["cond"], at, fn) is not None for n_ in fn.all_nodes() if n_.get("k") in ("if", "while", "for", "cond") and isinstance(n_.get("cond"), dict))
+        ck.ob(rid, sitestr(fn, good[0]), False if decided else None,
+              "%s: with daily rotation, a non-empty active file and content of an earlier day than today a path leaves without setting the modification time. %s" % (name, consequence) if decided else
+              "%s: a guard on the way to setFileTime() could not be evaluated for (daily rotation, non-empty file, content of an earlier day)" % name, key="day-state|" + tag)
